@@ -198,6 +198,10 @@ func vpClock(name string, k int) int64 { return 0 }
 // vpJSONAppendString: engine only (runs encoding/json's unexported escaping loop).
 func vpJSONAppendString(dst []byte, s string, escapeHTML bool) []byte { panic("engine only") }
 
+// vpLiveGoroutines: goroutines started by the harness/the code under test that have not
+// finished (engine: exact; natively: the runtime's count, which includes the test runner's).
+func vpLiveGoroutines() int { return runtime.NumGoroutine() }
+
 // vpReplayLabel: natively, the label of the counterexample being confirmed (so that a
 // hand-written native scenario reports under that label), else the default.
 func vpReplayLabel(def string) string {
